@@ -34,7 +34,7 @@ mod vk_vec {
         }
     }
 
-    // @harness name=vec_ledger_next props=C08,C01,C02 kind=bounded bound="len <= 3; counter value c over the full usize domain"
+    // @harness name=vec_ledger_next inputs=len,c,fin scenario="kind=vec len={len} c={c} ops=next,seq" props=C08,C01,C02 kind=bounded bound="len <= 3; counter value c over the full usize domain"
     #[kani::proof]
     #[kani::unwind(5)]
     fn vec_ledger_next() {
@@ -63,7 +63,7 @@ mod vk_vec {
         chk_ledger(len, owned_from, &delivered);
     }
 
-    // @harness name=vec_ledger_chunk props=C08,C01,C02,C03 kind=bounded bound="len <= 3; c, n over the full usize domain (c + n <= usize::MAX); any number of chunk items consumed"
+    // @harness name=vec_ledger_chunk inputs=len,c,n,take,fin scenario="kind=vec len={len} c={c} ops=chunk:{n}:{take},seq" props=C08,C01,C02,C03 kind=bounded bound="len <= 3; c, n over the full usize domain (c + n <= usize::MAX); any number of chunk items consumed"
     #[kani::proof]
     #[kani::unwind(5)]
     fn vec_ledger_chunk() {
@@ -105,7 +105,7 @@ mod vk_vec {
         chk_ledger(len, owned_from, &delivered);
     }
 
-    // @harness name=vec_ledger_buffered props=C08,C01,C02,C03 kind=bounded bound="len <= 3; c, chunk size over the full usize domain; any number of chunk items consumed"
+    // @harness name=vec_ledger_buffered inputs=len,c,n,take,fin scenario="kind=vec len={len} c={c} ops=buffered:{n}:{take},seq" props=C08,C01,C02,C03 kind=bounded bound="len <= 3; c, chunk size over the full usize domain; any number of chunk items consumed"
     #[kani::proof]
     #[kani::unwind(5)]
     fn vec_ledger_buffered() {
@@ -146,7 +146,7 @@ mod vk_vec {
         chk_ledger(len, owned_from, &delivered);
     }
 
-    // @harness name=vec_ledger_skip props=C08,C15,C06,C10 kind=bounded bound="len <= 3; c over the full usize domain"
+    // @harness name=vec_ledger_skip inputs=len,c,fin scenario="kind=vec len={len} c={c} ops=skip,next,seq" props=C08,C15,C06,C10 kind=bounded bound="len <= 3; c over the full usize domain"
     #[kani::proof]
     #[kani::unwind(5)]
     fn vec_ledger_skip() {
@@ -181,7 +181,7 @@ mod vk_vec {
         chk_ledger(len, owned_from, &delivered);
     }
 
-    // @harness name=vec_into_seq props=C10,C08 kind=bounded bound="len <= 3; c over the full usize domain"
+    // @harness name=vec_into_seq inputs=len,c scenario="kind=vec len={len} c={c} ops=seq" props=C10,C08 kind=bounded bound="len <= 3; c over the full usize domain"
     #[kani::proof]
     #[kani::unwind(5)]
     fn vec_into_seq() {
